@@ -491,12 +491,11 @@ def r09_4(chk: Check):
 
 
 def rules(chk: Check) -> None:
-    r09_12(chk)
-    r09_3(chk)
-    r09_4(chk)
+    for grp in (r09_12, r09_3, r09_4):
+        chk.stage(grp, chk)
     from .c17 import cache_coherence, jacobian_identity
-    cache_coherence(chk, "R09.5")
+    chk.stage(cache_coherence, chk, "R09.5")
     chk.floor("R09.5", 8)
     # the weight -dz/dchi must be the derivative of the position map of the grid actually used by the wall solver
-    jacobian_identity(chk, "R09.6", "grid3Scales:Grid3Scales", (0,))
+    chk.stage(jacobian_identity, chk, "R09.6", "grid3Scales:Grid3Scales", (0,))
     chk.floor("R09.6", 1)
